@@ -596,6 +596,8 @@ class ObsvRef:
     def eq(self, a, b):
         if self.kind == "dy":
             return abs(a - b) < EPS
+        if self.kind == "dc":
+            return abs(a - b) < 2 * SCALE
         return a == b
 
     def show(self, v):
@@ -654,7 +656,7 @@ class ObsvRef:
         if op in ("preinc", "predec", "postinc", "postdec"):
             if self.kind == "str":
                 raise Invalid()
-            one = SCALE if self.kind == "dy" else 1
+            one = SCALE if self.kind in ("dy", "dc") else 1
             old = self.val
             self.val = self.check(old + one if op.endswith("inc") else old - one)
             return self.out(self.show(self.val if op.startswith("pre") else old), True)
@@ -1070,7 +1072,7 @@ def tie_obsv(prop, tier, seed, res):
     cases = [c for c in lib.load_corpus("subject") if c and c[0].startswith("obsv ")]
     ncorpus = len(cases)
     n = 20000 if tier == "quick" else 150000
-    kinds = ["long", "dy", "str"]
+    kinds = ["long", "dy", "dc", "str"]
     for i in range(n):
         cases.append(gen_c16_case(rng, kinds[i % 3], 30 if tier == "quick" else 60))
     exp = [obsv_expected(c) for c in cases]
@@ -1105,7 +1107,7 @@ def tie_obsv(prop, tier, seed, res):
                 notified = not x.endswith("log=")
                 nsubs = x.count("(")
                 br["notified" if notified else "silent"] += 1
-                if kind == "dy" and t[1] == "assign" and not notified and ("val=" + t[2] + " ") not in x:
+                if kind in ("dy", "dc") and t[1] == "assign" and not notified and ("val=" + t[2] + " ") not in x:
                     br["neareq_equal_but_different"] += 1
                 distinct.add((kind, t[1], notified, nsubs, x.split(" | ")[0] != "ret=-"))
     res.evaluations = len(cases)
